@@ -62,6 +62,11 @@ type Obligation struct {
 	PCSize  int
 }
 
+type OblAgg struct {
+	Total, Trivial, Discharged, Violated, Unknown int
+	Ms                                            float64
+}
+
 type PathResult struct {
 	Status     string
 	Msg        string
@@ -152,12 +157,16 @@ type Machine struct {
 	sumMemo    map[string]*summary
 	sumDepth   int
 	stack      []string
+	writes       []writeRec
+	writeLogOn   bool
+	changedWhere []string
 
 	writeHook func(c *Cell, old, new Value)
 	readHook  func(c *Cell)
 
 	Harness     string
 	Obligations []*Obligation
+	Agg         map[string]*OblAgg
 	Stats       Stats
 	MaxSteps    int
 	MaxVisits   int
@@ -185,7 +194,7 @@ func NewMachine(p *Program, solver *smt.Solver) *Machine {
 	m := &Machine{P: p, ctx: sym.NewCtx(), solver: solver,
 		strCache: map[string]*Str{}, fnInfo: map[*ssa.Function]*fnInfo{},
 		methCache: map[methKey]*ssa.Function{}, constCache: map[*ssa.Const]Value{}, pkgCache: map[string]*ssa.Package{}, varCache: map[int][]int{}, layouts: map[*ssa.Function]map[ssa.Value]int{}, varByID: map[int]*sym.Term{}, qcache: map[string]bool{}, acache: map[string]smt.Result{}, sumMemo: map[string]*summary{},
-		MaxSteps: 3_000_000, MaxVisits: 20000, Bounds: map[string]int{}}
+		Agg: map[string]*OblAgg{}, MaxSteps: 3_000_000, MaxVisits: 20000, Bounds: map[string]int{}}
 	m.emptyStr = &Str{}
 	m.Stats.FuncsEncoded = map[string]int{}
 	m.Stats.NotEnc = map[string]int{}
@@ -243,6 +252,7 @@ func (m *Machine) RunPath(h *ssa.Function, prefix []int) (res PathResult, pendin
 	m.ext = map[string]interface{}{}
 	m.curDeferFrame, m.permuteMaps, m.clockReads = nil, false, nil
 	m.stack = m.stack[:0]
+	m.writes, m.writeLogOn, m.changedWhere, m.writeHook = nil, false, nil, nil
 	m.Harness = h.Name()
 
 	func() {
